@@ -92,20 +92,22 @@ Definition model_reads (tbl : list (list N * N)) (s : st) (rs : list (N * out * 
   forallb (fun e => let '(id, g, v) := e in
              out_eqb g (get s id) && out_eqb v (verify (hash_of tbl) s id)) rs.
 
-(* walk: verdict of the first failing step *)
-Fixpoint walk (tbl : list (list N * N)) (cs min_age : N) (s : st) (a : spec) (before : cdump)
+(* walk the WHOLE trace.  The property oracle is evaluated on every implementation observation,
+   also after the model and the implementation have parted ways (it only needs the specification
+   state and the implementation's own outputs); a model/implementation disagreement is only
+   remembered (`mism`) and reported at the end, when no observation violated the property. *)
+Fixpoint walk (tbl : list (list N * N)) (cs min_age : N) (s : st) (a : spec) (before : cdump) (mism : bool)
          (ops : list op) (os : list obs) : N :=
   match ops, os with
-  | [], [] => V_OK
+  | [], [] => if mism then V_MISMATCH else V_OK
   | o :: ops', ob :: os' =>
       let a' := sstep a o in
       if negb (oracle_step a' o before ob) then V_VIOLATION
       else
         let '(s', r) := mstep tbl cs min_age s o in
         let '(ri, cd, ad, rs) := ob in
-        if out_eqb r ri && cdump_matches cd (chunks s') && adump_matches ad (arts s') && model_reads tbl s' rs
-        then walk tbl cs min_age s' a' cd ops' os'
-        else V_MISMATCH
+        let agree := out_eqb r ri && cdump_matches cd (chunks s') && adump_matches ad (arts s') && model_reads tbl s' rs in
+        walk tbl cs min_age s' a' cd (mism || negb agree) ops' os'
   | _, _ => 9
   end.
 
@@ -113,7 +115,7 @@ Fixpoint walk (tbl : list (list N * N)) (cs min_age : N) (s : st) (a : spec) (be
 Definition trace_case := (N * N * list (list N * N) * list op * list obs)%type.
 Definition check_trace (c : trace_case) : N :=
   let '(cs, min_age, tbl, ops, os) := c in
-  if N.eqb cs 0 then 9 else walk tbl cs min_age init sinit [] ops os.
+  if N.eqb cs 0 then 9 else walk tbl cs min_age init sinit [] false ops os.
 
 (* ---- verify-under-damage case ----
    (cs, min_age, tbl, ops, the implementation's artifact records, damage, verify results after the
